@@ -170,6 +170,8 @@ def holds_mut(ty):
 
 
 TERM_IDX = 10 ** 6
+CURRENT = None
+_PROJ_BUSY = set()
 
 
 class BodyIndex:
@@ -266,7 +268,7 @@ class BodyIndex:
                     if a['k'] in ('copy', 'move'):
                         ty = body.local_ty(a['place']['l'])
                         if holds_mut(ty) or holds_mut(a['place']['ty']):
-                            out |= self.place_roots_value(a['place'], seen)
+                            out |= self.deref_roots(a['place'], seen)
             else:
                 rv = node['rv']
                 k = rv['k']
@@ -286,6 +288,19 @@ class BodyIndex:
         if len(seen) == 1:
             self._prov[l] = res
         return res
+
+    def deref_roots(self, p, seen):
+        """roots of what a call may return when handed the reference held in place p: for `&mut it` with `it` itself a
+        holder of references (an iterator over `&mut`), the things `it` points into rather than `it`"""
+        body = self.body
+        out = set()
+        for r in self.place_roots_value(p, seen):
+            if r[0] == 'L' and r[1] > body.argc and holds_mut(body.local_ty(r[1])) and r[1] not in seen:
+                inner = self.prov(r[1], seen)
+                out |= (inner - {r}) if inner - {r} else {r}
+            else:
+                out.add(r)
+        return frozenset(out)
 
     def place_roots_value(self, p, seen):
         """roots pointed into by the *value* stored in place p (p holds a reference or an iterator)"""
@@ -357,6 +372,8 @@ class Engine:
         self._ret = {}
         self._small = {}
         self._inlining = set()
+        global CURRENT
+        CURRENT = self
 
     def bx(self, body):
         k = body.key
@@ -497,6 +514,7 @@ class Engine:
             else:
                 ts.append(self.rvalue(body, dbb, didx, node['rv'], depth + 1))
         res = mk_phi(ts)
+        self._memo[mkey] = res      # while the events are evaluated, a re-entrant read sees the un-mutated value
         res = self._with_events(body, bb, idx, l, res, depth)
         self._memo[mkey] = res
         return res
@@ -882,11 +900,51 @@ def project_field(t, name, i):
         return t.args[i]
     if tag == 'phi':
         return mk_phi([project_field(x, name, i) for x in t.args])
-    if tag == 'mut' and t[1].tag in ('adt', 'tuple'):
-        return project_field(t[1], name, i)
+    if tag == 'mut':
+        base = project_field(t[1], name, i)
+        if not (base.tag == 'field' and base[2] is t[1]):
+            stored = [e[3][0] for e in t[2] if e.tag == 'ev' and e[1] == 'store' and e[2].split('.')[0] == name and e[3]]
+            other = [e for e in t[2] if not (e.tag == 'ev' and e[1] == 'store')]
+            if not stored:
+                return base
+            return mk_phi([base] + stored)
     if tag == 'via':
         return T('via', t[1], project_field(t[2], name, i))
+    if tag == 'call' and CURRENT is not None and t[1] in CURRENT.facts.fn and (t.id, name) not in _PROJ_BUSY:
+        # field of the value returned by a crate-local constructor: look through the constructor
+        _PROJ_BUSY.add((t.id, name))
+        try:
+            inl = CURRENT.inline(t[1], t[2], t[3])
+            base = success_value(inl[1] if inl.tag == 'mut' else inl)
+            if base is not None and (base.tag == 'adt' or (base.tag == 'phi' and all(x.tag == 'adt' for x in base.args))):
+                r = project_field(base, name, i)
+                if not (r.tag == 'field' and r[2] is base):
+                    return r
+        finally:
+            _PROJ_BUSY.discard((t.id, name))
     return T('field', name, t)
+
+
+def success_value(t):
+    """the value on the success path of a term of type Result / Option: Ok / Some payloads, error alternatives dropped"""
+    alts = list(t.args) if t.tag == 'phi' else [t]
+    keep = []
+    for x in alts:
+        if x.tag == 'adt':
+            last = x[1].split('::')[-1]
+            if last in ('Err', 'None'):
+                continue
+            if last in ('Ok', 'Some') and x[2]:
+                keep.append(x[2][0][1])
+                continue
+            keep.append(x)
+        elif x.tag == 'call' and x[1].split('::')[-1] in ('from_residual',):
+            continue
+        else:
+            keep.append(x)
+    if not keep:
+        return None
+    return mk_phi(keep)
 
 
 def project_variant(t, v):
